@@ -11,6 +11,7 @@ size_t G_ctx_obj, G_mac_off; extern size_t G_sk;
 #endif
 #define CONTRACT_MEMCMP_RECORDING
 #define CONTRACT_MEMCMP_SEQ
+#define CONTRACT_SECURE_MEMCMP_RECORDING
 #define CONTRACT_MEMXOR_RECORDING
 #include <gmssl/sm4.h>
 #include <gmssl/ghash.h>
@@ -73,7 +74,7 @@ void h_sm4_gcm_decrypt_update(void)
 typedef struct { SM4_GCM_CTX ctx; uint8_t gk, mode; size_t sk; } gsf_in;
 DECL_INPUT(gsf_in);
 
-//@job name=sm4_gcm_decrypt_finish props=C05,C04 enforce=sm4_gcm_decrypt_finish replace=ghash_finish,sm4_ctr32_encrypt_finish,gmssl_memxor,memcmp,memset timeout=600
+//@job name=sm4_gcm_decrypt_finish props=C05,C04 enforce=sm4_gcm_decrypt_finish replace=ghash_finish,sm4_ctr32_encrypt_finish,gmssl_memxor,memcmp,gmssl_secure_memcmp,memset timeout=600
 void h_sm4_gcm_decrypt_finish(void)
 {
 	INPUT(gsf_in, F);
